@@ -168,6 +168,9 @@ func main() {
 			cfg.MaxPaths = 6000000
 		}
 	}
+	if v := os.Getenv("VERIF_WORKERS"); v != "" {
+		fmt.Sscanf(v, "%d", &cfg.Workers) // experiments / running next to another job; the registered commands do not set it
+	}
 	if *budget > 0 {
 		cfg.Deadline = time.Now().Add(*budget)
 	}
